@@ -271,6 +271,14 @@ func writerOp(db *pebbledb.PebbleScanner, r *rand.Rand, c, i int, cfg histCfg, n
 			tag = "A"
 		}
 		s := version(id, name(tag), a)
+		if !a && r.Intn(2) == 0 {
+			// C-versions: the hashes of an A-version (every index KEY stays what it was) but an
+			// entropy far outside any tolerance: the values packed into the index entries decide
+			// that the probe cannot match, so a C-version must never be reported either
+			s = version(id, name("C"), true)
+			s.EntropyScore = probe.EntropyScore + 3
+			s.EntropyTolerance = 0.25
+		}
 		t0 := now()
 		err := db.AddSignature(&s)
 		t1 := now()
@@ -416,7 +424,7 @@ func readerOp(db *pebbledb.PebbleScanner, r *rand.Rand, c int, cfg histCfg, now 
 		if len(os) > 0 {
 			o := os[0]
 			x.Found, x.Name = true, o.name
-			if strings.HasPrefix(o.name, "B") {
+			if strings.HasPrefix(o.name, "B") || strings.HasPrefix(o.name, "C") {
 				report("mixed-version/"+kind, fmt.Sprintf("%s reported version %q of %q, a version whose record cannot match the probe: an index entry of another version was paired with this record", kind, o.name, id), nil)
 			} else if o.conf != 1 || !o.topo {
 				report("wrong-alert/"+kind, fmt.Sprintf("%s reported %q with confidence %v topologyMatch=%v, expected 1/true", kind, o.name, o.conf, o.topo), nil)
